@@ -74,6 +74,10 @@ def directed_scenarios(rnd):
                           A.field("data", A.t_arr(u8, A.L_expr(A.e_bin("*", A.e_bin("+", A.e_id("a"), A.e_id("b")), A.e_lit(2))))),
                           A.field("more", A.t_arr(u16, A.L_expr(A.e_bin("&", A.e_bin("-", A.e_bin("<<", A.e_id("a"), A.e_lit(1)), A.e_un("-", A.e_id("b"))), A.e_lit(7))))),
                           A.field("tail", u8)]),
+        # lengths naming the fields of anonymous members (the context handed on is built from them)
+        A.t_struct("D7", [A.field("k", u8), A.field("", A.t_struct("", [A.field("n", u8), A.field("", A.t_struct("", [A.field("m", u8)]), anon=True)]), anon=True),
+                          A.field("data", A.t_arr(u8, A.L_expr(A.e_id("n")))), A.field("more", A.t_arr(u16, A.L_expr(A.e_bin("&", A.e_id("m"), A.e_lit(3))))),
+                          A.field("t", u8)]),
     ]
     out = []
     for t in defs:
@@ -148,7 +152,7 @@ class ThreadsCheck:
                     "deterministic scheduler (sys.settrace line events in dissect/cstruct and generated readers): EVERY "
                     "single-preemption schedule of thread 0 and of thread 1 (sampled above the budget), sampled double preemptions and "
                     "3-thread rotations, over random definitions with expression lengths, bit-fields, unions, pointers (dereferenced in "
-                    "the thread) and arrays, both readers, plus six directed definitions (lengths from fields in 1 and 2 dimensions, bit units, "
+                    "the thread) and arrays, both readers, plus seven directed definitions (lengths from fields in 1 and 2 dimensions, bit units, "
                     "arrays of dynamic structures, union, LEB128 length) on small, different inputs; every distinct per-thread outcome is validated against Decode; "
                     "non-trivial = distinct (scenario, thread, outcome) records")
         run_mc(rep, "MC_Threads", cfg="MC_Threads_3" if thorough else "MC_Threads")
